@@ -13,6 +13,7 @@ import (
 	"github.com/tink-crypto/tink-go/v2/aead"
 	aeadsubtle "github.com/tink-crypto/tink-go/v2/aead/subtle"
 	"github.com/tink-crypto/tink-go/v2/keyset"
+	tinkpb "github.com/tink-crypto/tink-go/v2/proto/tink_go_proto"
 	"github.com/tink-crypto/tink-go/v2/tink"
 	"github.com/tink-crypto/tink-go/v2/verifharness/internal/aeadcase"
 	"github.com/tink-crypto/tink-go/v2/verifharness/internal/detrand"
@@ -332,20 +333,24 @@ func TestEnvelopeRejects(t *testing.T) {
 		detrand.Seed(rapid.Uint64().Draw(rt, "entropy"))
 		kek := tk.Must(aeadsubtle.NewAESGCM(gen.BytesN(rt, "kek", 32)))
 		kt := rapid.SampledFrom([]string{"AES128GCM", "AES256CTRHMAC", "XCHACHA", "AES256GCMSIV"}).Draw(rt, "dek")
-		tmpl := map[string]func() tink.AEAD{
-			"AES128GCM":     func() tink.AEAD { return aead.NewKMSEnvelopeAEAD2(aead.AES128GCMKeyTemplate(), kek) },
-			"AES256CTRHMAC": func() tink.AEAD { return aead.NewKMSEnvelopeAEAD2(aead.AES256CTRHMACSHA256KeyTemplate(), kek) },
-			"XCHACHA":       func() tink.AEAD { return aead.NewKMSEnvelopeAEAD2(aead.XChaCha20Poly1305KeyTemplate(), kek) },
-			"AES256GCMSIV":  func() tink.AEAD { return aead.NewKMSEnvelopeAEAD2(aead.AES256GCMSIVKeyTemplate(), kek) },
+		tmpl := map[string]*tinkpb.KeyTemplate{
+			"AES128GCM":     aead.AES128GCMKeyTemplate(),
+			"AES256CTRHMAC": aead.AES256CTRHMACSHA256KeyTemplate(),
+			"XCHACHA":       aead.XChaCha20Poly1305KeyTemplate(),
+			"AES256GCMSIV":  aead.AES256GCMSIVKeyTemplate(),
 		}
-		env := tmpl[kt]()
+		api := rapid.SampledFrom(tk.EnvelopeAPIs).Draw(rt, "api")
+		env, err := tk.Envelope(api, tmpl[kt], kek)
+		if err != nil {
+			rt.Fatalf("envelope constructor %s refuses the supported DEK template %s: %v", api, kt, err)
+		}
 		pt := gen.Bytes(rt, "pt", 100)
 		ad := gen.BytesOrNil(rt, "ad", 40)
 		ct, err := env.Encrypt(pt, ad)
 		if err != nil {
 			rt.Fatalf("envelope Encrypt: %v", err)
 		}
-		r := &rejecter{t: rt, p: env, desc: "envelope " + kt + " pt=" + gen.Hex(pt), valid: [][2][]byte{{ct, ad}}, byKind: map[string]int{}}
+		r := &rejecter{t: rt, p: env, desc: "envelope api=" + api + " dek=" + kt + " pt=" + gen.Hex(pt), valid: [][2][]byte{{ct, ad}}, byKind: map[string]int{}}
 		if got, err := env.Decrypt(ct, ad); err != nil || !bytes.Equal(got, pt) {
 			rt.Fatalf("%s: genuine envelope rejected: %v", r.desc, err)
 		}
@@ -379,8 +384,8 @@ func TestEnvelopeRejects(t *testing.T) {
 		garbage := gen.BytesN(rt, "garbage", n)
 		r.mustReject("garbage-dek", append(append(append([]byte{}, ct[:4]...), garbage...), ct[4+n:]...), ad)
 		evid.Add("reject_candidates", int64(r.n))
-		evid.Case("envelope/"+kt, true, evid.NewH().S(kt).B(ct).Sum(), func() any {
-			return map[string]any{"dek": kt, "pt": gen.Hex(pt), "candidates": r.n}
+		evid.Case("envelope/"+api+"/"+kt, true, evid.NewH().S(api).S(kt).B(ct).Sum(), func() any {
+			return map[string]any{"api": api, "dek": kt, "pt": gen.Hex(pt), "candidates": r.n}
 		})
 	})
 }
